@@ -49,8 +49,11 @@ def run(ctx):
     ctx.guarded("R02.7", "u32", lambda: content_length_u32(ctx, "R02.7"))
     from . import c14, c15
     ctx.guarded("R02.5", "find", lambda: c14.find_shape(_Remap(ctx, "R02.5")))
-    ctx.rule("R02.8", "a completed request is queued at once, so every request preceding an error is delivered (= C01 R01.8)")
+    ctx.rule("R02.8", "a completed request is queued at once and leaves the queue only through pop_front, so every request preceding an error is delivered (= C01 R01.8, R01.4)")
     ctx.guarded("R02.8", "queue-on-completion", lambda: c01.queue_on_completion(ctx, "R02.8"))
+    # ... and stays queued: nothing but pop_front removes from the queue (an error path that clears it loses the requests that precede the fault)
+    from .c06 import fifo
+    ctx.guarded("R02.8", "fifo", lambda: fifo(ctx, "R02.8", "parsed_requests", {"push_back", "pop_front"}, floor=2))
     ctx.rule("R02.9", "recognised header values are interpreted through trim() and written as the header rules say (= C15 R15.2-R15.6)")
     ctx.guarded("R02.9", "header-line", lambda: c15.line(_Remap(ctx, "R02.9")))
 
